@@ -386,6 +386,9 @@ fn read_method<C: ClassVisitor>(reader: &mut impl ClassRead, visitor: C, pool: &
 							let code_visitor = read_code(reader, code_visitor, pool, bootstrap_methods)
 								.with_context(|| anyhow!("failed to read code of method {name:?} {descriptor:?}"))?;
 							method_visitor.finish_code(code_visitor)?;
+						} else {
+							// the visitor declined the code: leave the attribute behind
+							reader.skip(length as i64)?;
 						}
 					},
 					name if name == attribute::EXCEPTIONS && !interests.exceptions => reader.skip(length as i64)?,
